@@ -151,6 +151,7 @@ Lemma tstep_put_start c d k hash sz st rnd h tm :
   if negb (Z.of_nat (String.length hash) =? hashLen) then Some (d, mkThread req (Done (PutErr EBadRequest)) h tm) else
   if kind_eqb k CAS && (sz =? 0) && String.eqb hash emptySha256 then
     (if st_len st >? 0 then Some (d, mkThread req (Done (PutErr EBadRequest)) h tm)
+     else if st_err st then Some (d, mkThread req (Done (PutErr EInternal)) h tm)
      else Some (d, mkThread req (Done PutOk) h tm)) else
   if sz >? 0 then
     let '(l', r) := LRU.reserve sz (lru d) in
@@ -242,7 +243,7 @@ Definition put_fun (c : cfg) (d : dstate) (k : kind) (hash : string) (sz : Z) (s
   if sz >? c_maxblob c then (d, Some (PutErr EBadRequest)) else
   if negb (Z.of_nat (String.length hash) =? hashLen) then (d, Some (PutErr EBadRequest)) else
   if kind_eqb k CAS && (sz =? 0) && String.eqb hash emptySha256 then
-    (d, Some (if st_len st >? 0 then PutErr EBadRequest else PutOk)) else
+    (d, Some (if st_len st >? 0 then PutErr EBadRequest else if st_err st then PutErr EInternal else PutOk)) else
   if sz >? 0 then
     let '(l', r) := LRU.reserve sz (lru d) in
     match r with
@@ -283,7 +284,7 @@ Proof.
   destruct (sz >? c_maxblob c); [apply outcome_done; reflexivity|].
   destruct (negb (Z.of_nat (String.length hash) =? hashLen)); [apply outcome_done; reflexivity|].
   destruct (kind_eqb k CAS && (sz =? 0) && String.eqb hash emptySha256);
-    [destruct (st_len st >? 0); apply outcome_done; reflexivity|].
+    [destruct (st_len st >? 0); [|destruct (st_err st)]; apply outcome_done; reflexivity|].
   destruct (sz >? 0).
   - destruct (LRU.reserve sz (lru d)) as [l' r].
     destruct r as [u|e|s|s]; try (apply outcome_done; reflexivity). apply outcome_put_body. lia.
@@ -396,7 +397,8 @@ Theorem put_cases c d k hash sz st rnd d' r :
   (~ put_guards c hash sz /\ d' = d /\ r = Some (PutErr EBadRequest)) \/
   (* the empty blob: nothing to store; data sent for it is refused *)
   (put_guards c hash sz /\ empty_shortcut k hash sz /\ d' = d /\
-   ((st_len st <= 0 /\ r = Some PutOk) \/ (0 < st_len st /\ r = Some (PutErr EBadRequest)))) \/
+   ((st_len st <= 0 /\ st_err st = false /\ r = Some PutOk) \/ (0 < st_len st /\ r = Some (PutErr EBadRequest)) \/
+    (st_len st <= 0 /\ st_err st = true /\ r = Some (PutErr EInternal)))) \/
   (* the reservation is refused *)
   (put_guards c hash sz /\ ~ empty_shortcut k hash sz /\ 0 < sz /\
    exists e, snd (LRU.reserve sz (lru d)) = Err e /\
@@ -429,7 +431,8 @@ Proof.
   destruct (kind_eqb k CAS && (sz =? 0) && String.eqb hash emptySha256) eqn:G4.
   { intros H; inversion H; subst. right. left. apply shortcut_iff in G4.
     split; [exact HG|]. split; [exact G4|]. split; [reflexivity|].
-    destruct (st_len st >? 0) eqn:G6; [right|left]; (split; [lia|reflexivity]). }
+    destruct (st_len st >? 0) eqn:G6; [right; left; split; [lia|reflexivity]|].
+    destruct (st_err st) eqn:G7; [right; right|left]; (split; [lia|split; reflexivity]). }
   assert (HS : ~ empty_shortcut k hash sz) by (intros Hc; apply shortcut_iff in Hc; congruence).
   assert (Hit : item_ok (put_item c k sz st rnd)) by (apply put_item_ok; lia).
   intros H. right. right.
@@ -612,7 +615,7 @@ Proof.
   intros HI Hod. split.
   - intros H.
     destruct (put_cases _ _ _ _ _ _ _ _ _ HI Hod H)
-      as [(Hn & -> & _)|[(HG & Hs & -> & [(_ & Hr)|(Hl & _)])|[(HG & Hs & Hsz & e' & ER & -> & Hr)|(_ & _ & _ &
+      as [(Hn & -> & _)|[(HG & Hs & -> & [(_ & _ & Hr)|[(Hl & _)|(_ & _ & Hr)]])|[(HG & Hs & Hsz & e' & ER & -> & Hr)|(_ & _ & _ &
           [(_ & Hr & _)|(_ & [(_ & Hr & _)|(_ & l2 & r2 & _ & [(_ & Hr & _)|(_ & Hr & _)])])])]]];
       try discriminate.
     + unfold put_guards in Hn. split; [|lia].
@@ -666,8 +669,9 @@ Proof.
   { intros H; inversion H; subst. cbn. apply negb_true_iff in G3. split; [intros _; lia|reflexivity]. }
   apply negb_false_iff in G3.
   destruct (kind_eqb k CAS && (sz =? 0) && String.eqb hash emptySha256) eqn:G4.
-  { apply shortcut_iff in G4. destruct (st_len st >? 0) eqn:G5; intros H; inversion H; subst; cbn.
+  { apply shortcut_iff in G4. destruct (st_len st >? 0) eqn:G5; [|destruct (st_err st)]; intros H; inversion H; subst; cbn.
     - split; [intros _; right; right; right; left; split; [exact G4|lia]|reflexivity].
+    - split; [discriminate|]. intros [Hc|[Hc|[Hc|[[_ Hc]|[Hc _]]]]]; try lia; contradiction.
     - split; [discriminate|]. intros [Hc|[Hc|[Hc|[[_ Hc]|[Hc _]]]]]; try lia; contradiction. }
   assert (HS : ~ empty_shortcut k hash sz) by (intros Hx; apply shortcut_iff in Hx; congruence).
   destruct (sz >? 0) eqn:G5.
